@@ -57,6 +57,7 @@ RULE = ("sharp functions ||A(x-x*)||_1, ||A(x-x*)||_inf, optionally + mu/2||x-x*
 FLAVOUR = {"quick": "plain", "thorough": "asan"}
 HARNESS_TIMEOUT = 3000
 RT = 1e-9
+RTOL = 1e-9   # (reported in the evidence; the comparison itself is `compare` below)
 
 OBLIGATIONS = [NB + t for t in [
     "aggregate_valid", "kept_valid", "reduce_kept", "appendStep_valid", "bundle_lower_bound_invariant", "appendFull_valid",
@@ -193,8 +194,8 @@ def gen_bundle(rng, tier, solver=None):
     c["max_size"] = [2, 3, 4, 4, 5, 5, rng.range(6, 12), rng.range(6, 30), rng.range(2, 100), 100][k]
     hi = 20000 if tier == "thorough" else 3000
     c["max_evals"] = rng.choice([100, rng.range(100, 600), rng.range(100, hi), rng.range(100, hi)])
-    if c["max_size"] > 30:
-        c["max_evals"] = min(c["max_evals"], 1500 if tier == "quick" else 5000)
+    # the quadratic sub-problem costs ~ size^3 per evaluation: keep one run below a second
+    c["max_evals"] = max(100, min(c["max_evals"], (40000 if tier == "quick" else 100000) // c["max_size"]))
     c.update(DEFAULTS)
     if rng.chance(0.6):
         a = rng.uniform(0.02, 0.9); b = rng.uniform(a + 0.02, 0.98)
@@ -228,7 +229,7 @@ def gen(rng, tier):
     cp = os.path.join(vlib.VERIF, "corpus", "C03", "ops.txt")
     if os.path.exists(cp):
         ops += [l.strip() for l in open(cp) if l.strip() and not l.startswith("#")]
-    nb, ne = (450, 225) if tier == "quick" else (1500, 750)
+    nb, ne = (450, 225) if tier == "quick" else (900, 450)
     for solver in ["rqb", "fpba1", "fpba2"]:
         for _ in range(nb // 3):
             ops.append(gen_bundle(rng, tier, solver))
